@@ -161,9 +161,8 @@ Definition check_build (s : str) : option str :=
   match s with [] => None | _ => if only_alphanum s then Some s else None end.
 
 Definition Parse (s : str) : option Version :=
-  match s with
-  | [] => None
-  | _ =>
+  if Nat.eqb (length s) 0 then None                      (* len(s) == 0 *)
+  else
       match splitN 3 [46] s with
       | [p0; p1; p2] =>
           match parse_component p0, parse_component p1 with
@@ -190,8 +189,7 @@ Definition Parse (s : str) : option Version :=
           | _, _ => None
           end
       | _ => None
-      end
-  end.
+      end.
 
 (** Go's string comparison: lexicographic on bytes *)
 Definition str_gtb (a b : str) : bool := match bytes_cmp a b with Gt => true | _ => false end.
